@@ -22,7 +22,7 @@ COMPONENTS = {"real": ["ECAgent.Environments.SpaceWorld.add_agent / remove_agent
                        "GridWorld constructors", "PositionComponent"],
               "stub": ["agents are plain ECAgent agents created by the harness"]}
 PROBES = ["multi_lap_wrap", "negative_wrap", "clamp_both_sides_one_move", "placement_on_hi", "zero_extent_axis",
-          "reject.oob", "reject.move_to_oob", "reject.no_position", "move_to_accepted", "continuous_world", "grid_world"]
+          "reject.oob", "reject.move_to_oob", "reject.no_position", "move_to_accepted", "continuous_world", "grid_world", "model_lifecycle_op"]
 TECHNIQUE = "deterministic simulation: seeded placement/move histories with injected rejected operations vs an exact (dyadic) arithmetic reference, containment invariant after every op"
 LEVEL_TEXT = ("Seeded search over world configurations and move histories; after every operation every resident agent's "
               "coordinates must equal the exact reference (modular in wrapping worlds, saturating otherwise) and lie inside "
@@ -34,6 +34,7 @@ SHRINK_LISTS = ["ops"]
 
 def generate(rng, tier):
     world = gen_world(rng)
+    world["attached"] = rng.random() < 0.8
     ref = RefWorld(world)
     n = rng.randint(1, 8 if tier == "thorough" else 5)
     ops = []
@@ -54,8 +55,10 @@ def generate(rng, tier):
             ops.append({"op": "move_to", "k": k, "p": [gen_coord(rng, ref, ax) if rng.random() < 0.5 else
                                                         (rng.randint(0, max(ref.hi(ax), 0)) if ref.positive(ax) else 0)
                                                         for ax in range(3)]})
-        else:
+        elif r < 0.985:
             ops.append({"op": "remove", "k": k})
+        else:
+            ops.append({"op": "lifecycle", "k": k, "what": rng.choice(["step", "complete"])})
     return {"world": world, "n": n, "ops": ops}
 
 
@@ -178,6 +181,9 @@ def execute(sc, ctx):
                 ctx.check(snapshot() == before, "rejected-move_to-changed-state", f"move_to of a{k} to {rp}")
                 shape.append(["move_to", "rej"])
             ctx.event("move_to", k, p)
+        elif kind == "lifecycle":
+            ctx.expect_ok("lifecycle", m.complete if op["what"] == "complete" else m.execute)
+            ctx.probe("model_lifecycle_op")
         elif kind == "remove":
             if k not in pos:
                 continue
